@@ -1,5 +1,5 @@
 '''C05 - Student verdict.'''
-from ..rules import stats, dataset
+from ..rules import stats, dataset, patterns
 from ..variants import stats as _v
 
 ID = 'C05'
@@ -40,7 +40,13 @@ ASSUMPTIONS = ['numpy comparison semantics: every ordered comparison with '
 def check(ctx):
     ctx.run(stats.check_student)
     ctx.run(dataset.check_quad, kinds=('sub',), nan_strict=True)
+    ctx.run(patterns.check_patterns, ID)
+
+
+def _variants(program):
+    return _v.variants(program, ID)
 
 
 def variants(program):
-    return _v.variants(program, ID)
+    from ..variants import patterns as _pv
+    return list(_variants(program)) + _pv.variants(program, ID)
